@@ -230,8 +230,8 @@ macro_rules! uconv {
                 let q = QT { dimension: PhantomData, units: PhantomData, value: v };
                 writeln!($cx.out, "conv {} {} usr.{} {} {} {} {} {} {} {} {} {}", <$V as Fl>::NAME, $bname, stringify!($module), stringify!($unit),
                     coef.hex(), ca.hex(), cs.hex(), pows, v.hex(), nw.hex(), q.get::<N>().hex(), QT::new::<N>(v).get::<N>().hex()).unwrap();
-                writeln!($cx.out, "rnd {} {} usr.{} {} {} {} {} {} {} {} {} {} {} {}", <$V as Fl>::NAME, $bname, stringify!($module), stringify!($unit),
-                    coef.hex(), ca.hex(), cs.hex(), pows, v.hex(), q.floor::<N>().value.hex(), q.ceil::<N>().value.hex(), q.round::<N>().value.hex(),
+                writeln!($cx.out, "rnd {} {} usr.{} {} {} {} {} {} {} {} {} {} {} {} {}", <$V as Fl>::NAME, $bname, stringify!($module), stringify!($unit),
+                    coef.hex(), ca.hex(), cs.hex(), pows, v.hex(), q.get::<N>().hex(), q.floor::<N>().value.hex(), q.ceil::<N>().value.hex(), q.round::<N>().value.hex(),
                     q.trunc::<N>().value.hex(), q.fract::<N>().value.hex()).unwrap();
             }
         })*
